@@ -80,7 +80,7 @@ func rehomeBatch(logs []*raft.Log) {
 	for _, l := range logs {
 		n += len(l.Data) + len(l.Extensions)
 	}
-	buf := make([]byte, 0, n)
+	buf := make([]byte, 0, n+64) // a receive buffer is longer than the batch decoded from it
 	type span struct{ a, b, c int }
 	var sp []span
 	for _, l := range logs {
